@@ -637,3 +637,116 @@ func execC05Left(t *testing.T, c C05Left) (v Verdict) {
 }
 
 func TestC05Left(t *testing.T) { checkProp(t, "C05", "leftover", genC05Left, execC05Left) }
+
+// ---- C05 order across a transient write fault ---------------------------------------------------
+
+type C05Order struct {
+	N       int    `json:"n"`      // messages the handler sends
+	FailJ   int    `json:"fail_j"` // index of the message whose transport write fails (once)
+	ErrKind string `json:"err_kind"`
+	Streams int    `json:"streams"` // concurrent streams doing the same (1..3); only stream 0's message fails
+	Ser     bool   `json:"ser"`
+	Stats   bool   `json:"stats,omitempty"`
+}
+
+func genC05Order(t *rapid.T) C05Order {
+	c := C05Order{N: rapid.IntRange(2, 10).Draw(t, "n"), ErrKind: rapid.SampledFrom(kit.FaultErrKinds).Draw(t, "err_kind"), Streams: rapid.IntRange(1, 3).Draw(t, "streams"), Ser: rapid.Bool().Draw(t, "ser"), Stats: rapid.IntRange(0, 3).Draw(t, "stats") == 0}
+	c.FailJ = rapid.IntRange(0, c.N-1).Draw(t, "fail_j")
+	return c
+}
+
+// execC05Order: one response write of a server stream fails at the transport (an error of a drawn kind, some of which
+// look transient: timeouts). Whether the connection survives that is not C05's business; but whatever a caller receives
+// on its stream must be that stream's own messages in the order they were sent, none twice.
+func execC05Order(t *testing.T, c C05Order) (v Verdict) {
+	defer kit.UseFaultKind(c.ErrKind)()
+	got := make([][][]byte, c.Streams)
+	ends := make([]*kit.ErrObs, c.Streams)
+	res := kit.Bubble(t, func() {
+		sched := kit.NewSched()
+		svc := kit.NewSvc()
+		svc.Stream("o", true, true, func(s grpcServerStream) error {
+			b, err := kit.RecvBytes(s)
+			if err != nil || len(b) != 1 {
+				return err
+			}
+			for j := 0; j < c.N; j++ {
+				if err := kit.SendBytes(s, []byte{0x0D, b[0], byte(j)}); err != nil {
+					return err
+				}
+			}
+			sched.Park(s.Context(), "order-return") // the stream stays open while time passes
+			return nil
+		})
+		w := kit.NewWorld(kit.Topo{Kind: "direct", Serialize: c.Ser, Clients: 1, Stats: c.Stats}, svc, nil, nil)
+		l := w.Links[0]
+		marker := []byte{0x0D, 0, byte(c.FailJ)}
+		failed := false
+		l.B.FailWriteIf(func(r *kit.Rpc) bool {
+			if !failed && bytes.Equal(unwrapBytes(r.GetBody().GetData()), marker) {
+				failed = true // a one-off fault
+				return true
+			}
+			return false
+		})
+		var wg sync.WaitGroup
+		for i := 0; i < c.Streams; i++ {
+			i := i
+			wg.Add(1)
+			go func() {
+				defer wg.Done()
+				ctx, cancel := context.WithTimeout(context.Background(), time.Hour)
+				defer cancel()
+				cs, err := w.Conn(0).NewStream(ctx, kit.StreamDescFor(kit.KindServer), kit.FullMethod("o"))
+				if err != nil {
+					return
+				}
+				_ = kit.SendBytes(cs, []byte{byte(i)})
+				_ = cs.CloseSend()
+				for {
+					b, err := kit.RecvBytes(cs)
+					if err != nil {
+						e := kit.Observe(err)
+						ends[i] = &e
+						return
+					}
+					got[i] = append(got[i], b)
+				}
+			}()
+		}
+		kit.Settle()
+		time.Sleep(100 * time.Millisecond) // anything that was put off for later happens now
+		kit.Settle()
+		sched.Drain() // the handlers return
+		kit.Settle()
+		l.Close() // callers still waiting on a connection that quietly died are released
+		kit.Settle()
+		wg.Wait()
+		w.Shutdown()
+		kit.Settle()
+	})
+	if res.Panic != nil {
+		v.failf("panic: %v\n%s", res.Panic, res.Stack)
+	}
+	for i := range got {
+		last := -1
+		for _, b := range got[i] {
+			if len(b) != 3 || b[0] != 0x0D || int(b[1]) != i {
+				v.failf("stream %d received %v: not a message of this stream", i, b)
+				break
+			}
+			if int(b[2]) <= last {
+				v.failf("stream %d received message #%d after message #%d: per-call order broken or a message duplicated (write #%d had failed once with a %s error)", i, b[2], last, c.FailJ, c.ErrKind)
+				break
+			}
+			last = int(b[2])
+		}
+		if ends[i] != nil && ends[i].EOF && len(got[i]) != c.N {
+			v.failf("stream %d was reported complete (io.EOF) with %d of its %d messages", i, len(got[i]), c.N)
+		}
+	}
+	v.Info = kit.CaseInfo{Labels: []string{"write-fault-order", "order.err=" + c.ErrKind}, NonTrivial: c.FailJ < c.N-1, Key: fmt.Sprintf("%+v", c), Sample: c}
+	return
+}
+
+func TestC05Order(t *testing.T) { checkProp(t, "C05", "order", genC05Order, execC05Order) }
